@@ -175,8 +175,10 @@ func inferTyped(t byte, doc []byte) typedDoc {
 	return typedFromShape(sh)
 }
 
-func typedFromShape(sh *Shape) typedDoc {
-	g := &idlGen{extra: map[*Shape][]uint16{}}
+func typedFromShape(sh *Shape) typedDoc { return typedFromShapeAnno(sh, false) }
+
+func typedFromShapeAnno(sh *Shape, anno bool) typedDoc {
+	g := &idlGen{extra: map[*Shape][]uint16{}, anno: anno}
 	addExtras(sh, g)
 	tn := g.typeName(sh)
 	idl := "namespace go verif\n" + g.sb.String() + fmt.Sprintf("struct W {\n  1: optional %s x\n}\nservice Svc {\n  W M(1: W req)\n}\n", tn)
